@@ -991,19 +991,37 @@ Example cx_chain :
   sval (nseg d) = bs "{b}" /\ sname (nseg d) = bs "b" /\ npat d = bs "/x/{a{b}c/{b}".
 Proof. vm_compute. repeat split. Qed.
 
+(* a chain root - a - b - c - d in which c writes a name that d uses again *)
+Lemma not_fresh_by_chain : forall r a b c d, In a (nchildren r) -> In b (nchildren a) ->
+  In c (nchildren b) -> In d (nchildren c) -> seg_sets (nseg c) = true ->
+  sname (nseg d) = sname (nseg c) -> ~ all_nodes names_fresh_at r.
+Proof.
+  intros r a b c d Ia Ib Ic Id Hs Hn H.
+  pose proof (all_nodes_here _ _
+    (all_nodes_child _ _ _ (all_nodes_child _ _ _ (all_nodes_child _ _ _ H Ia) Ib) Ic)) as Hc.
+  exact (Hc Hs d (desc_child _ _ Id) Hn).
+Qed.
+
+Local Notation cxT := (fold_left tstep cx_hist (new_tree (bs "r") [] false)).
+
 Theorem names_fresh_refuted :
   ~ (forall name ic trace hist,
        all_nodes names_fresh_at (troot (fold_left tstep hist (new_tree name ic trace)))).
 Proof.
-  intro H. specialize (H (bs "r") [] false cx_hist). fold cx_tree in H.
-  pose (a := kid 0 (troot cx_tree)). pose (b := kid 0 a). pose (c := kid 0 b). pose (d := kid 0 c).
-  assert (Ia : In a (nchildren (troot cx_tree))) by (vm_compute; left; reflexivity).
-  assert (Ib : In b (nchildren a)) by (vm_compute; left; reflexivity).
-  assert (Ic : In c (nchildren b)) by (vm_compute; left; reflexivity).
-  assert (Id : In d (nchildren c)) by (vm_compute; left; reflexivity).
-  pose proof (all_nodes_here _ _
-    (all_nodes_child _ _ _ (all_nodes_child _ _ _ (all_nodes_child _ _ _ H Ia) Ib) Ic)) as Hc.
-  apply (Hc eq_refl d (desc_child _ _ Id)). vm_compute. reflexivity.
+  intro H.
+  assert (Ia : In (kid 0 (troot cxT)) (nchildren (troot cxT))) by (vm_compute; left; reflexivity).
+  assert (Ib : In (kid 0 (kid 0 (troot cxT))) (nchildren (kid 0 (troot cxT))))
+    by (vm_compute; left; reflexivity).
+  assert (Ic : In (kid 0 (kid 0 (kid 0 (troot cxT)))) (nchildren (kid 0 (kid 0 (troot cxT)))))
+    by (vm_compute; left; reflexivity).
+  assert (Id : In (kid 0 (kid 0 (kid 0 (kid 0 (troot cxT)))))
+                  (nchildren (kid 0 (kid 0 (kid 0 (troot cxT))))))
+    by (vm_compute; left; reflexivity).
+  assert (Hs : seg_sets (nseg (kid 0 (kid 0 (kid 0 (troot cxT))))) = true)
+    by (vm_compute; reflexivity).
+  assert (Hn : sname (nseg (kid 0 (kid 0 (kid 0 (kid 0 (troot cxT)))))) =
+               sname (nseg (kid 0 (kid 0 (kid 0 (troot cxT)))))) by (vm_compute; reflexivity).
+  exact (not_fresh_by_chain _ _ _ _ _ Ia Ib Ic Id Hs Hn (H (bs "r") [] false cx_hist)).
 Qed.
 
 (* with two more routes below the split label the dispatch itself goes wrong: the abandoned
@@ -1037,6 +1055,8 @@ Example cx_dispatch3 :
   end.
 Proof. vm_compute. repeat split. Qed.
 
+Local Notation cxT4 := (fold_left tstep cx_hist4 (new_tree (bs "r") [] false)).
+
 Theorem dispatch_walk_refuted :
   ~ (forall name ic trace hist method path n h ps ok,
        let t := fold_left tstep hist (new_tree name ic trace) in
@@ -1045,15 +1065,15 @@ Theorem dispatch_walk_refuted :
        walk (troot t) path [] n ps).
 Proof.
   intro H.
-  assert (E : exists n h, tree_handler cx_tree4 GET cx_path [] = HFound true (Some n) h [(bs "k", bs "2/z")])
+  assert (E : exists n h, tree_handler cxT4 GET cx_path [] = HFound true (Some n) h [(bs "k", bs "2/z")])
     by (vm_compute; eexists; eexists; reflexivity).
   destruct E as [n [h E]].
-  specialize (H (bs "r") [] false cx_hist4 GET cx_path n h [(bs "k", bs "2/z")] true).
-  cbv zeta in H. fold cx_tree4 in H.
-  assert (W : walk (troot cx_tree4) cx_path [] n [(bs "k", bs "2/z")]).
-  { apply H; [exact E | left; reflexivity | |]; intro X; vm_compute in X; discriminate X. }
-  clear H E.
-  assert (P : cx_path = 47 :: tl cx_path) by reflexivity. rewrite P in W. clear P.
+  assert (T0 : ttrace cxT4 = None) by (vm_compute; reflexivity).
+  assert (P1 : cx_path <> bs "*") by (intro X; vm_compute in X; discriminate X).
+  assert (P2 : cx_path <> []) by (intro X; vm_compute in X; discriminate X).
+  pose proof (H (bs "r") [] false cx_hist4 GET cx_path n h _ true E (or_introl T0) P1 P2) as W.
+  clear H E T0 P1 P2.
+  assert (P : cx_path = 47 :: tl cx_path) by (vm_compute; reflexivity). rewrite P in W. clear P.
   apply walk_cons_inv in W. destruct W as [c1 [p1 [s1 [I1 [M1 W]]]]].
   vm_compute in I1. destruct I1 as [<-|[]]. vm_compute in M1. injection M1 as <- <-.
   apply walk_cons_inv in W. destruct W as [c2 [p2 [s2 [I2 [M2 W]]]]].
